@@ -729,16 +729,25 @@ fn diff_views(a: &View, b: &View) -> String {
 
 /// One seeded run: K, knobs, length and every operation derive from `run_seed`.
 pub fn seeded_run(property: &str, run_seed: u64, stats: &mut ArenaStats) -> (ArenaResult, usize, u32) {
+    seeded_run_depth(property, run_seed, false, stats)
+}
+
+/// `deep` (thorough tier, every other run): K up to 5 and histories up to 250 calls.
+pub fn seeded_run_depth(property: &str, run_seed: u64, deep: bool, stats: &mut ArenaStats) -> (ArenaResult, usize, u32) {
     let mut rng = Prng::new(run_seed);
-    let k = if rng.chance(1, 2) { 2 } else { 3 };
-    let knobs = gen_knobs(&mut rng);
-    let len = *rng.pick(&[3usize, 5, 8, 12, 20, 30, 60]);
+    let k = if deep { *rng.pick(&[2usize, 3, 4, 5]) } else if rng.chance(1, 2) { 2 } else { 3 };
+    let mut knobs = gen_knobs(&mut rng);
+    let len = if deep { *rng.pick(&[40usize, 80, 120, 250]) } else { *rng.pick(&[3usize, 5, 8, 12, 20, 30, 60]) };
+    if deep {
+        knobs.soft_cap = *rng.pick(&[8, 25, 60]);
+    }
     let root_value = 1000;
     let src = OpSource::Gen { rng: &mut rng, len, knobs };
-    let res = if k == 2 {
-        run_history::<2>(property, root_value, src, Some(stats))
-    } else {
-        run_history::<3>(property, root_value, src, Some(stats))
+    let res = match k {
+        2 => run_history::<2>(property, root_value, src, Some(stats)),
+        3 => run_history::<3>(property, root_value, src, Some(stats)),
+        4 => run_history::<4>(property, root_value, src, Some(stats)),
+        _ => run_history::<5>(property, root_value, src, Some(stats)),
     };
     (res, k, root_value)
 }
@@ -747,6 +756,8 @@ pub fn replay_history(property: &str, k: usize, root_value: u32, ops: &[ArenaOp]
     match k {
         2 => run_history::<2>(property, root_value, OpSource::Lit(ops), None),
         3 => run_history::<3>(property, root_value, OpSource::Lit(ops), None),
+        4 => run_history::<4>(property, root_value, OpSource::Lit(ops), None),
+        5 => run_history::<5>(property, root_value, OpSource::Lit(ops), None),
         _ => panic!("unsupported K"),
     }
 }
